@@ -433,6 +433,8 @@ class C14:
                "the n x n effect of a Loss component (factor sqrt(1-loss) on its mode) is taken from C01's model"]
     ASSUMPTIONS = ["the theorem C14_reck_reconstructs assumes the nulled matrix is diagonal (what check_null tests); C14_nulled_is_diagonal_partial / C14_reck_map_reproduces_partial discharge this for every exactly unitary input in exact arithmetic provided no entry met by the loop has modulus strictly between 0 and 1e-20 (not proved without that proviso, nor for floats: the run measures the exact off-diagonal residue instead)",
                    "seed=None (OS entropy) cases are checked by the oracle only (bounds, validity), not against the model's values",
+                   "finding (signature constant-accepts-sequence, reported when the malformed stream draws it): Constant([0.5]) / Constant((0.5,)) / Constant([]) is accepted because dists/utils.is_number treats a list/tuple as several values; the model answers TypeError",
+                   "an implementation call that does not return within 30 s (3 s after the first such case) is reported as a failure of the oracle (resampling loop that never ends)",
                    "float rounding: phases are compared on the circle; the value float(2*pi) is accepted as < 2*pi (it is, by 2.4e-16)"]
     CHUNK = 6
 
@@ -645,7 +647,11 @@ class C14:
                 vals = []
                 for _ in range(c["count"]):
                     try:
-                        vals.append({"ok": float(d.value())})
+                        v = d.value()
+                        if isinstance(v, bool) or not isinstance(v, (int, float, np.integer, np.floating)):
+                            vals.append({"err": "TypeError", "not_a_number": repr(v)})     # what any numeric use would raise
+                            break
+                        vals.append({"ok": float(v)})
                     except Exception as e:  # noqa: BLE001
                         vals.append({"err": errname(e)})
                         break
